@@ -4,6 +4,9 @@ use crate::wire::marshal::MarshalContext;
 use crate::wire::unmarshal_context::UnmarshalContext;
 use crate::{Marshal, Signature, Unmarshal};
 
+#[cfg(feature = "verif_hooks")]
+use crate::verif_hooks::nix_shim as nix;
+
 use std::io;
 use std::os::unix::io::RawFd;
 use std::sync::atomic::AtomicI32;
@@ -22,6 +25,8 @@ struct UnixFdInner {
 impl Drop for UnixFdInner {
     fn drop(&mut self) {
         if let Some(fd) = self.take() {
+            #[cfg(feature = "verif_hooks")]
+            crate::verif_hooks::point("drop.close");
             nix::unistd::close(fd).ok();
         }
     }
@@ -35,11 +40,15 @@ impl UnixFdInner {
     /// This is kinda like Cell::take it takes the FD and resets the atomic int to FD_INVALID which represents the invalid / taken state here.
     fn take(&self) -> Option<RawFd> {
         // load fd and see if it is already been taken
+        #[cfg(feature = "verif_hooks")]
+        crate::verif_hooks::point("take.load");
         let loaded_fd: RawFd = self.inner.load(std::sync::atomic::Ordering::SeqCst);
         if loaded_fd == Self::FD_INVALID {
             None
         } else {
             //try to swap with FD_INVALID
+            #[cfg(feature = "verif_hooks")]
+            crate::verif_hooks::point("take.cas");
             let swapped_fd = self.inner.compare_exchange(
                 loaded_fd,
                 Self::FD_INVALID,
@@ -57,6 +66,8 @@ impl UnixFdInner {
 
     /// This is kinda like Cell::get it returns the FD, FD_INVALID represents the invalid / taken state here.
     fn get(&self) -> Option<RawFd> {
+        #[cfg(feature = "verif_hooks")]
+        crate::verif_hooks::point("get.load");
         let loaded = self.inner.load(std::sync::atomic::Ordering::SeqCst);
         if loaded == Self::FD_INVALID {
             None
@@ -71,6 +82,8 @@ impl UnixFdInner {
             Some(fd) => fd,
             None => return Err(DupError::AlreadyTaken),
         };
+        #[cfg(feature = "verif_hooks")]
+        crate::verif_hooks::point("dup.syscall");
         match nix::unistd::dup(fd) {
             Ok(new_fd) => Ok(Self {
                 inner: AtomicI32::new(new_fd),
@@ -120,6 +133,15 @@ impl UnixFd {
         self.0.dup().map(|new_inner| Self(Arc::new(new_inner)))
     }
 }
+/// Only with the `verif_hooks` feature: a scheduling point in front of the `Arc` strong-count
+/// decrement that happens when a handle goes away (the fields are dropped after this returns).
+#[cfg(feature = "verif_hooks")]
+impl Drop for UnixFd {
+    fn drop(&mut self) {
+        crate::verif_hooks::point("handle.drop");
+    }
+}
+
 /// Allow for the comparison of `UnixFd` even after the `RawFd`
 /// has been taken, to see if they originally referred to the same thing.
 impl PartialEq<UnixFd> for UnixFd {
